@@ -128,7 +128,7 @@ def is_empty_selection(obs):
     """densest cell alone exceeds 1 - alpha: the code raises IndexError (recorded behaviour of
     the 'Empty' outcome in HDC.tla, nothing is claimed about it)"""
     cap = obs["cap"]
-    return bool(obs["exc"].startswith("IndexError") and "P" in cap and cap["P"].max() > cap["limit"])
+    return bool(obs["exc"].startswith("IndexError") and "P" in cap and cap["P"].max() > 1.0 - obs["alpha"])
 
 
 def judge(ctx, vc, cases, label, base_id=0):
@@ -147,8 +147,10 @@ def judge(ctx, vc, cases, label, base_id=0):
         kept.append((case, rec, dict(n=n, n_in=n_in, shape=rec.get("shape"), warned=rec["warned"],
                                      sumP=float(obs["cap"]["P"].sum()) if "P" in obs["cap"] else None)))
     if not recs:
-        raise Machinery("no contour could be observed")
-    # big records first in small chunks (bounded file size / heap)
+        if base_id == 0 and not ctx.violations:
+            raise Machinery("no contour could be observed")
+        ctx.log(f"{label}: nothing to judge ({empty} empty selections skipped)")
+        return []
     failing = ctx.validate("Trace_C02", "Trace_C02.cfg", recs, xss=XSS, chunk=ctx.pick(60, 40))
     nwarn = 0
     for case, rec, info in kept:
@@ -356,10 +358,12 @@ def run(ctx):
     ctx.notes["near_limit_contours"] = len(kept_near)
     ctx.notes["near_limit_warned"] = sum(1 for _, r, _ in kept_near if r["warned"])
     self_test(ctx)
-    mid = kept[len(kept) // 3]
-    small = min((k for k in kept if not k[1]["exc"]), key=lambda k: k[2]["n"])
-    ctx.sample({"case": mid[0], "observed": mid[2]})
-    ctx.sample({"case": small[0], "record": small[1]})
+    ok = [k for k in kept if not k[1]["exc"]]
+    if ok:
+        mid = ok[len(ok) // 3]
+        small = min(ok, key=lambda k: k[2]["n"])
+        ctx.sample({"case": mid[0], "observed": mid[2]})
+        ctx.sample({"case": small[0], "record": small[1]})
     ctx.sample({"selection_record": sel_recs[len(sel_recs) // 2]})
 
 
